@@ -544,6 +544,10 @@ func (u *Upstream) withAckTimeoutCh(ctx context.Context, inCh <-chan *message.Up
 		defer cancel()
 		select {
 		case <-timeoutCtx.Done():
+			if ctx.Err() != nil {
+				// the run was cancelled (outage, close): that is not an ack timeout, the chunk stays stored
+				return
+			}
 			select {
 			case <-ctx.Done():
 			case <-u.ctx.Done():
